@@ -13,6 +13,7 @@ import (
 	"os"
 	"os/exec"
 	"path/filepath"
+	"runtime"
 	"sort"
 	"strconv"
 	"strings"
@@ -308,10 +309,34 @@ func runC18Scripts(c *Ctx) {
 		}
 		os.RemoveAll(root)
 	}
+}
+
+// runC18Concurrent runs LAST: the number of rounds depends on timing, so the random choices
+// it consumes must not shift those of the other streams.
+func runC18Concurrent(c *Ctx) {
+	r := c.Res
+	files, _ := filepath.Glob(filepath.Join(c.RepoDir, "jobmanagers", "*.template*"))
+	sort.Strings(files)
+	type tmpl struct{ name, text string }
+	var templates []tmpl
+	for _, f := range files {
+		if b, err := os.ReadFile(f); err == nil && strings.Contains(string(b), "__MRO_CMD__") {
+			templates = append(templates, tmpl{filepath.Base(f), string(b)})
+		}
+	}
+	if len(templates) == 0 {
+		return
+	}
 	// rendering must be a pure function of its inputs, also when jobs are rendered concurrently
-	rounds := 40
+	// by one job manager (sendJob renders before it takes the submission lock; with maxjobs > 0
+	// there is one goroutine per job): G goroutines start together behind a barrier and each
+	// renders several DIFFERENT jobs with long argument lists (a render then takes long enough
+	// to overlap with the others'); every result is compared with the same job rendered alone.
+	// Rounds are repeated until enough pairs of renders were observed to overlap in time.
+	const G, perG = 16, 6
+	wantOverlaps, maxRounds := 3000, 150
 	if c.Thorough {
-		rounds = 1500
+		wantOverlaps, maxRounds = 60000, 3000
 	}
 	jm := core.VerifNewRemoteJobManager(templates[0].text, []string{"MRO_THREADS_X"})
 	type job struct {
@@ -321,29 +346,44 @@ func runC18Scripts(c *Ctx) {
 		dir  string
 		want string
 	}
-	for rd := 0; rd < rounds; rd++ {
-		jobs := make([]job, 8)
+	type span struct{ a, b time.Time }
+	overlaps, rounds := 0, 0
+	for ; rounds < maxRounds && overlaps < wantOverlaps; rounds++ {
+		jobs := make([]job, G*perG)
 		for j := range jobs {
-			jobs[j] = job{prog: "/p/" + c18PathComponent(c), argv: []string{c18Arg(c), c18Arg(c)},
-				envs: map[string]string{"K": c18Arg(c)}, dir: "/w/" + c18PathComponent(c)}
+			jobs[j] = job{prog: "/p/" + c18PathComponent(c), argv: []string{c18Arg(c), c18GenLong(c), c18Arg(c), c18GenLong(c)},
+				envs: map[string]string{"K": c18Arg(c), "L": c18GenLong(c)}, dir: "/w/" + c18PathComponent(c)}
 			jobs[j].want = core.VerifNewRemoteJobManager(templates[0].text, []string{"MRO_THREADS_X"}).VerifJobScript(
 				jobs[j].prog, jobs[j].argv, jobs[j].envs, jobs[j].dir, jobs[j].dir+"/files", "ID.ps.T.S.fork0", "main", 1, 1)
 		}
 		got := make([]string, len(jobs))
+		spans := make([]span, len(jobs))
 		var wg sync.WaitGroup
 		start := make(chan struct{})
-		for j := range jobs {
+		for g := 0; g < G; g++ {
 			wg.Add(1)
-			go func(j int) {
+			go func(g int) {
 				defer wg.Done()
 				<-start
-				got[j] = jm.VerifJobScript(jobs[j].prog, jobs[j].argv, jobs[j].envs, jobs[j].dir, jobs[j].dir+"/files",
-					"ID.ps.T.S.fork0", "main", 1, 1)
-			}(j)
+				for k := 0; k < perG; k++ {
+					j := g*perG + k
+					t0 := time.Now()
+					got[j] = jm.VerifJobScript(jobs[j].prog, jobs[j].argv, jobs[j].envs, jobs[j].dir, jobs[j].dir+"/files",
+						"ID.ps.T.S.fork0", "main", 1, 1)
+					spans[j] = span{t0, time.Now()}
+				}
+			}(g)
 		}
 		close(start)
 		wg.Wait()
 		r.hist("jobscript_concurrent_rounds")
+		for x := range spans {
+			for y := x + 1; y < len(spans); y++ {
+				if x/perG != y/perG && spans[x].a.Before(spans[y].b) && spans[y].a.Before(spans[x].b) {
+					overlaps++
+				}
+			}
+		}
 		for j := range jobs {
 			if got[j] != jobs[j].want {
 				r.violate(Violation{Kind: "property", Key: "C18:jobscript:concurrent-render",
@@ -353,5 +393,12 @@ func runC18Scripts(c *Ctx) {
 				return
 			}
 		}
+	}
+	if r.Histogram == nil {
+		r.Histogram = map[string]int{}
+	}
+	r.Histogram["jobscript_concurrent_overlapping_render_pairs"] += overlaps
+	if overlaps < wantOverlaps {
+		r.note("concurrent rendering: only %d overlapping pairs of renders observed in %d rounds (wanted %d; GOMAXPROCS=%d)", overlaps, rounds, wantOverlaps, runtime.GOMAXPROCS(0))
 	}
 }
